@@ -79,8 +79,24 @@ def gen_sigma(rng):
     return 10 ** rng.uniform(-0.5, 1.3)
 
 
+def near_int_order(rng):
+    """orders a few ulps / 1e-12 away from an integer (running sums like 0.1*50, linspace grids):
+    `float.is_integer()` is false for them, so they must take the fractional-order path"""
+    k = float(rng.randint(3, 64))
+    r = rng.random()
+    if r < 0.45:
+        return math.nextafter(k, 0.0)
+    if r < 0.6:
+        return k - rng.choice([1e-15, 1e-13, 1e-12, 1e-10]) * k
+    if r < 0.8:
+        return math.nextafter(k, math.inf)
+    return k + rng.choice([1e-13, 1e-12, 1e-10]) * k
+
+
 def gen_alpha(rng, alphas):
     r = rng.random()
+    if r < 0.07:
+        return near_int_order(rng)
     if r < 0.6:
         return float(rng.choice(alphas))
     if r < 0.75:
@@ -111,7 +127,9 @@ def gen_orders(rng, alphas, small=True):
     out = []
     for _ in range(k):
         r = rng.random()
-        if r < 0.55:
+        if r < 0.08:
+            out.append(near_int_order(rng))
+        elif r < 0.55:
             out.append(float(rng.randint(2, 80)))
         elif r < 0.9:
             out.append(float(rng.choice(alphas[:99])) if rng.random() < 0.7 else round(rng.uniform(1.2, 40), 2))
@@ -129,7 +147,13 @@ def gen_history(rng, maxq=1.0, runs=None):
         q = min(rnd(gen_q(rng), 4), maxq)
         if rng.random() < 0.08:
             q = 1.0 if maxq >= 1 else maxq
-        h.append((rnd(gen_sigma(rng), 4), q, rng.randint(1, 2000)))
+        if h and rng.random() < 0.3:
+            # a setting that RECURS later in the history (A, B, A: cyclic schedules, fine-tuning and back);
+            # step() only merges adjacent runs, so the recurrence is a separate history entry
+            s0, q0, _ = rng.choice(h)
+            h.append((s0, q0, rng.randint(1, 2000)))
+        else:
+            h.append((rnd(gen_sigma(rng), 4), q, rng.randint(1, 2000)))
     return h
 
 
